@@ -128,10 +128,9 @@ pub fn write_corpus(target: &str, dir: &std::path::Path) -> usize {
             }
             _ => {
                 let mut v = vec![(i % 3) as u8];
-                for _ in 0..(i % 5) {
-                    v.extend(style_name(&mut s, ["Content-Length", "Expect", "Accept-Encoding", "Accept", "Transfer-Encoding", "X-A"][(i as usize) % 6]).into_bytes());
-                    v.push(b':');
-                    v.extend(style_value(&mut s, ["5", "100-continue", "identity;q=0", "text/plain", "chunked", "v"][(i as usize) % 6]).into_bytes());
+                let mut labels = Vec::new();
+                for _ in 0..(1 + i % 5) {
+                    v.extend(crate::props::pure::c15_line(&mut s, &mut labels));
                     v.push(b'\n');
                 }
                 v
